@@ -68,7 +68,9 @@ pub fn fill_mask<T: IsNone + Clone, F: Fn(&T) -> bool>(x: &[T], mask: F, value: 
 
 pub fn vclip<T: IsNone + Clone>(x: &[T], lower: T, upper: T) -> Vec<T>
 where
-    T::Inner: PartialOrd,
+    // the library only asks for PartialOrd; every element type the harness clips is numeric, and the
+    // stronger bound keeps the harness compiling if the library's bound is tightened
+    T::Inner: PartialOrd + Number,
 {
     let v = x.to_vec();
     Iterator::collect(v.titer().vclip(lower, upper))
